@@ -267,7 +267,7 @@ func (vc *VC) allocObj(h *Heap, l *Layout) string {
 		sort.Strings(comps)
 		for _, c := range comps {
 			old := h.m[c]
-			h.m[c] = vc.define("H", heapSort(c), sto(old, r, fmt.Sprintf("((as const %s) %s)", innerSort(c), zeroOfSort(compSorts[c]))))
+			h.m[c] = vc.define("H", heapSort(c), sto(old, r, fmt.Sprintf("((as const %s) %s)", innerSort(c), zeroOfSort(compSort(c)))))
 		}
 	}
 	return r
@@ -375,7 +375,11 @@ func (vc *VC) symVal(prefix string, t types.Type, h *Heap) *Val {
 	}
 	v := &Val{K: l.Kind, W: l.W, Signed: l.Signed, T: t}
 	for _, c := range compsOf(l.Kind, l.W) {
-		v.C = append(v.C, vc.fresh(prefix+"."+strings.ReplaceAll(c.name, ".", ""), c.sort))
+		srt := c.sort
+		if vc.intMode && l.Kind == KBV {
+			srt = "Int"
+		}
+		v.C = append(v.C, vc.fresh(prefix+"."+strings.ReplaceAll(c.name, ".", ""), srt))
 	}
 	vc.assumeWF(v, h)
 	return v
